@@ -318,7 +318,7 @@ void LVCalc(matrix *X,
       if(libsci_verif_tick_hook != NULL)
         libsci_verif_tick_hook(1, loop, calcConvergence(t_, t_old));
       #endif
-      if(calcConvergence(t_, t_old) < PLSCONVERGENCE){
+      if(calcConvergence(t_, t_old) < PLSCONVERGENCE || loop >= PLSMAXITER){
         break;
       }
       else{
